@@ -276,9 +276,11 @@ struct PemObj { std::string name; Bytes data; bool error = false, ended = false;
 struct PemSink { Bytes *d; };
 static void pem_dest(void *ctx, const void *src, size_t len) { Bytes *d = ((PemSink *)ctx)->d; d->insert(d->end(), (const uint8_t *)src, (const uint8_t *)src + len); }
 
-static std::vector<PemObj> pem_decode(const std::string &text, unsigned chunk, size_t *consumed_total = nullptr)
+// objects whose index has its bit set in skip_mask are decoded without a destination ("decoded data is simply ignored")
+static std::vector<PemObj> pem_decode(const std::string &text, unsigned chunk, size_t *consumed_total = nullptr, unsigned skip_mask = 0)
 {
-	br_pem_decoder_context pc;
+	std::unique_ptr<br_pem_decoder_context> pcp(new br_pem_decoder_context);   // exact-size heap object: a write past the context is visible
+	br_pem_decoder_context &pc = *pcp;
 	br_pem_decoder_init(&pc);
 	std::vector<PemObj> objs;
 	Bytes cur;
@@ -298,7 +300,7 @@ static std::vector<PemObj> pem_decode(const std::string &text, unsigned chunk, s
 			o.name = br_pem_decoder_name(&pc);
 			objs.push_back(o);
 			cur.clear();
-			br_pem_decoder_setdest(&pc, pem_dest, &sink);
+			if (!((skip_mask >> ((objs.size() - 1) & 31)) & 1)) br_pem_decoder_setdest(&pc, pem_dest, &sink);
 			in_obj = true;
 		} else if (ev == BR_PEM_END_OBJ || ev == BR_PEM_ERROR) {
 			VF_CHECK(in_obj && !objs.empty(), "PEM decoder: event %d outside any object", ev);
@@ -383,6 +385,20 @@ static void k_pem_roundtrip(Tape &t)
 		for (auto &ch : up) if (ch >= 'a' && ch <= 'z') ch = (char)(ch - 32);
 		VF_CHECK(objs[0].name == up, "%s: decoded name '%s', want '%s'", desc.c_str(), objs[0].name.c_str(), up.c_str());
 		VF_CHECK(objs[0].data == data, "%s: decoded payload differs (%zu vs %zu bytes)", desc.c_str(), objs[0].data.size(), data.size());
+		// an application that wants the second object only: an all-ones object first, decoded without a destination
+		// (bearssl_pem.h: "decoded data is simply ignored"), then ours
+		if (t.u8() % 4 == 0) {
+			size_t fl = br_pem_encode(nullptr, nullptr, 256 + n, "SKIPPED", flags);
+			Bytes first(fl + 1), ones(256 + n, 0xFF);
+			br_pem_encode(first.data(), ones.data(), ones.size(), "SKIPPED", flags);
+			std::string two = std::string((const char *)first.data(), fl) + text;
+			std::vector<PemObj> o2 = pem_decode(two, t.u8() % 2 ? 61 : 0, nullptr, 1);
+			VF_CHECK(o2.size() == 2 && o2[0].ended && !o2[0].error && o2[0].name == "SKIPPED" && o2[0].data.empty(), "%s after a skipped %zu-byte object: first object: %zu objects, error %d, %zu bytes delivered without a destination", desc.c_str(),
+				ones.size(), o2.size(), o2.empty() ? -1 : (int)o2[0].error, o2.empty() ? (size_t)0 : o2[0].data.size());
+			VF_CHECK(o2[1].ended && !o2[1].error && o2[1].name == up && o2[1].data == data, "%s after a skipped %zu-byte object: the second object is decoded wrongly (%zu vs %zu bytes, error %d)", desc.c_str(), ones.size(),
+				o2[1].data.size(), data.size(), (int)o2[1].error);
+			stats.cls("pem:object-skipped-without-destination");
+		}
 	}
 	stats.cls("pem:roundtrip");
 	stats.eval(n > ll * 3 / 4 ? fmt("pem/%zu/%u/%zu/%d", n, flags, bl, inplace) : std::string());
